@@ -6,6 +6,7 @@ import (
 	"fmt"
 	"math/big"
 	"net"
+	"net/http"
 	"os"
 	"strings"
 	"sync"
@@ -16,6 +17,7 @@ import (
 	"github.com/vipnode/vipnode/v2/ethnode"
 	"github.com/vipnode/vipnode/v2/jsonrpc2"
 	"github.com/vipnode/vipnode/v2/pool"
+	"github.com/vipnode/vipnode/v2/pool/status"
 	"github.com/vipnode/vipnode/v2/pool/store"
 	"github.com/vipnode/vipnode/v2/pool/store/badger"
 	"verifharness/vlib"
@@ -1061,4 +1063,223 @@ func armNextReply(c *replyFailCodec, n int) {
 	c.mu.Lock()
 	c.failIDs = map[string]int{"*": n}
 	c.mu.Unlock()
+}
+
+// c15StatusWhileDependenciesFail (C15): the dashboard service is asked for
+// the pool status while the things it reads fail in turn (store statistics,
+// host list, peer lists, the Ethereum node's total-deposit lookup), with the
+// cache expiring between requests. Every request gets a well-formed reply
+// (its own id, a result or an error) and nothing panics.
+func c15StatusWhileDependenciesFail(ev *vlib.Evidence, driver string, idx int) {
+	r := vlib.Rand("C15-statusfault-"+driver, idx)
+	lw, err := authWorld(driver, idx)
+	if err != nil || lw.chaos == nil {
+		ev.Inconclusive(fmt.Sprintf("c15 status-fault setup: %v", err))
+		return
+	}
+	defer lw.w.Close()
+	var depositFails int32
+	st := &status.PoolStatus{Store: lw.chaos, TimeStarted: time.Now(), Version: "verif", CacheDuration: time.Millisecond,
+		GetTotalDeposit: func(ctx context.Context) (*big.Int, error) {
+			if atomic.LoadInt32(&depositFails) != 0 {
+				return nil, fmt.Errorf("Post \"http://localhost:8545\": dial tcp 127.0.0.1:8545: connect: connection refused")
+			}
+			return big.NewInt(12345), nil
+		}}
+	srv := &jsonrpc2.Server{}
+	if err := srv.Register("pool_", st); err != nil {
+		panic(err)
+	}
+	steps := 6 + r.Intn(10)
+	trace := []string{}
+	for k := 0; k < steps; k++ {
+		what := vlib.Pick(r, "ok", "ok", "deposit-lookup", "deposit-lookup", "Stats", "ActiveHosts", "NodePeers")
+		if k == 0 && r.Intn(2) == 0 {
+			what = "ok" // something is cached before the first failure
+		}
+		atomic.StoreInt32(&depositFails, 0)
+		lw.chaos.Fail = nil
+		switch what {
+		case "ok":
+		case "deposit-lookup":
+			atomic.StoreInt32(&depositFails, 1)
+		default:
+			op := what
+			lw.chaos.Fail = func(o string, n int) bool { return o == op }
+		}
+		time.Sleep(2 * time.Millisecond) // the cached reply has expired
+		id := fmt.Sprintf("%d", 1000*idx+k)
+		req := &jsonrpc2.Message{ID: json.RawMessage(id), Version: "2.0", Request: &jsonrpc2.Request{Method: "pool_status"}}
+		var resp *jsonrpc2.Message
+		panicked := ""
+		func() {
+			defer func() {
+				if p := recover(); p != nil {
+					panicked = fmt.Sprint(p)
+				}
+			}()
+			resp = srv.Handle(context.Background(), req)
+		}()
+		trace = append(trace, what)
+		ev.Count("status-requests-while-dependencies-fail", 1)
+		detail := map[string]interface{}{"driver": driver, "failing": what, "requests_so_far": trace, "index": idx}
+		switch {
+		case panicked != "":
+			detail["panic"] = panicked
+			ev.Violate("panic:pool_status:"+what+"-fails", detail)
+			lw.chaos.Fail = nil
+			return
+		case resp == nil || string(resp.ID) != id || resp.Response == nil || (resp.Response.Error == nil && len(resp.Response.Result) == 0):
+			detail["reply"] = fmt.Sprint(resp)
+			ev.Violate("malformed-reply:pool_status:"+what+"-fails", detail)
+			lw.chaos.Fail = nil
+			return
+		}
+		if _, err := json.Marshal(resp); err != nil {
+			detail["marshal_error"] = err.Error()
+			ev.Violate("unencodable-reply:pool_status:"+what+"-fails", detail)
+			lw.chaos.Fail = nil
+			return
+		}
+	}
+	lw.chaos.Fail = nil
+	ev.Case(fmt.Sprintf("status-while-dependencies-fail/%s/%s", driver, strings.Join(trace, ",")), true)
+}
+
+// codedError is an error that carries an RPC error code of its own, like the
+// errors go-ethereum's rpc client returns for an Ethereum node's error replies.
+type codedError struct {
+	code int
+	msg  string
+}
+
+func (e *codedError) Error() string  { return e.msg }
+func (e *codedError) ErrorCode() int { return e.code }
+
+// FailingService has registered methods whose work fails underneath them.
+type FailingService struct {
+	ToyService
+}
+
+// Relay fails with the error reply of a nested JSON-RPC call, handed on unwrapped.
+func (f *FailingService) Relay(code int) error {
+	f.hit("Relay")
+	return &jsonrpc2.ErrResponse{Code: code, Message: "method not found: admin_addTrustedPeer"}
+}
+
+// Node fails with a coded error of the Ethereum node's RPC client.
+func (f *FailingService) Node(ctx context.Context, code int) (string, error) {
+	f.hit("Node")
+	return "", &codedError{code, "the method admin_addTrustedPeer does not exist/is not available"}
+}
+
+// HalfBrokenService cannot be registered: one of its methods has a signature
+// the dispatcher does not support.
+type HalfBrokenService struct {
+	ToyService
+}
+
+func (h *HalfBrokenService) Aaa() string           { h.hit("Aaa"); return "a" }
+func (h *HalfBrokenService) Drain(s string) error  { h.hit("Drain"); return nil }
+func (h *HalfBrokenService) Zzz() (string, int)    { h.hit("Zzz"); return "z", 1 }
+func (h *HalfBrokenService) Zzzz() (int, int, int) { h.hit("Zzzz"); return 1, 2, 3 }
+
+// c16FailurePaths (C16): (a) a registered method, called with exactly its
+// declared parameters, runs and fails with an error that carries an RPC code
+// of its own: the caller is not told the name does not exist, nor that the
+// parameters were invalid (which promises the method was not run); (b) a
+// registration that is reported as failed exposes nothing.
+func c16FailurePaths(ev *vlib.Evidence) {
+	fs := &FailingService{}
+	srv := &jsonrpc2.Server{}
+	if err := srv.Register("f_", fs, "relay", "node"); err != nil {
+		panic(err)
+	}
+	ln, err := net.Listen("tcp", "127.0.0.1:0")
+	if err != nil {
+		panic(err)
+	}
+	hsrv := &jsonrpc2.HTTPServer{}
+	if err := hsrv.Server.Register("f_", fs, "relay", "node"); err != nil {
+		panic(err)
+	}
+	hs := &http.Server{Handler: hsrv}
+	go hs.Serve(ln)
+	defer hs.Close()
+	c1, c2 := net.Pipe()
+	defer c1.Close()
+	defer c2.Close()
+	serving := &jsonrpc2.Remote{Codec: jsonrpc2.IOCodec(c2), Server: srv, Client: &jsonrpc2.Client{}}
+	calling := &jsonrpc2.Remote{Codec: jsonrpc2.IOCodec(c1), Server: &jsonrpc2.Server{}, Client: &jsonrpc2.Client{}}
+	go serving.Serve()
+	go calling.Serve()
+	remoteCaller := func(method, params string) (int, string) {
+		var args []interface{}
+		json.Unmarshal([]byte(params), &args)
+		ctx, cancel := context.WithTimeout(context.Background(), vlib.CallTimeout)
+		defer cancel()
+		var raw json.RawMessage
+		err := calling.Call(ctx, &raw, method, args...)
+		if err == nil {
+			return 0, ""
+		}
+		return errCode(err), err.Error()
+	}
+	callers := map[string]rawCaller{"handle": serverRawCaller(srv), "http": httpRawCaller("http://" + ln.Addr().String() + "/"), "remote": remoteCaller}
+	for tname, call := range callers {
+		for _, m := range []string{"Relay", "Node"} {
+			for _, code := range []int{jsonrpc2.ErrCodeMethodNotFound, jsonrpc2.ErrCodeInvalidParams, -32600, -32700, -32603, -32000, 3} {
+				before := fs.count(m)
+				got, msg := call("f_"+strings.ToLower(m), fmt.Sprintf("[%d]", code))
+				ran := fs.count(m) - before
+				ev.Case(fmt.Sprintf("failing-method/%s/%s/code=%d", tname, m, code), true)
+				ev.Count("calls-of-registered-methods-that-fail-with-a-coded-error", 1)
+				detail := map[string]interface{}{"transport": tname, "method": "f_" + strings.ToLower(m), "error_code_of_the_failure": code, "answer_code": got, "answer": msg, "times_run": ran}
+				switch {
+				case ran != 1:
+					ev.Violate("registered-method-with-declared-params-not-run-once:"+m, detail)
+				case got == jsonrpc2.ErrCodeMethodNotFound:
+					ev.Violate("registered-name-answered-method-not-found:"+m, detail)
+				case got == jsonrpc2.ErrCodeInvalidParams:
+					ev.Violate("invalid-params-answer-although-method-ran:"+m, detail)
+				case got == 0:
+					ev.Violate("failure-answered-as-success:"+m, detail)
+				}
+			}
+		}
+	}
+	// (b) failed registrations
+	for _, allow := range [][]string{nil, {"aaa", "drain"}, {"aaa", "drain", "zzz", "zzzz"}} {
+		hb := &HalfBrokenService{}
+		s2 := &jsonrpc2.Server{}
+		// a service that registers fine is there too
+		ok := &ToyService{}
+		if err := s2.Register("ok_", ok, "gamma"); err != nil {
+			panic(err)
+		}
+		rerr := s2.Register("admin_", hb, allow...)
+		ev.Case(fmt.Sprintf("failed-registration/allow=%v/err=%v", allow, rerr != nil), rerr != nil)
+		ev.Count("registrations-reported-as-failed", 1)
+		if rerr == nil {
+			continue // accepted: the ordinary grid covers what it exposes
+		}
+		call := serverRawCaller(s2)
+		for _, n := range []string{"admin_aaa", "admin_drain", "admin_zzz", "admin_zzzz", "admin_hit", "admin_count"} {
+			params := "[]"
+			if n == "admin_drain" {
+				params = `["0xabc"]`
+			}
+			code, msg := call(n, params)
+			ev.Count("name-probes:failed-registration", 1)
+			if code != jsonrpc2.ErrCodeMethodNotFound {
+				ev.Violate("name-callable-after-failed-registration:"+n, map[string]interface{}{"allow_list": allow, "registration_error": rerr.Error(), "code": code, "err": msg})
+			}
+		}
+		if n := hb.count("Aaa") + hb.count("Drain") + hb.count("Zzz") + hb.count("Zzzz"); n > 0 {
+			ev.Violate("method-ran-after-failed-registration", map[string]interface{}{"allow_list": allow, "times": n})
+		}
+		if code, msg := call("ok_gamma", "[]"); code != 0 {
+			ev.Violate("registered-name-not-found:after-another-registration-failed", map[string]interface{}{"code": code, "err": msg})
+		}
+	}
 }
